@@ -58,7 +58,9 @@ CheckCreate(e) ==
     /\ IF C06 /\ e.date_kind \in {"before", "after", "naive"} /\ e.outcome # "raised"
        THEN Fail(e, "bad-simulation-date-accepted", e.date_kind) ELSE TRUE
     /\ IF C06 /\ e.date_kind \in {"first", "interior", "last"} /\ e.expect_ok /\ e.outcome = "raised"
-       THEN Line("NOTE", e, "valid-simulation-refused", e.exc) ELSE TRUE
+       THEN (IF e.date_kind = "first" /\ e.period_refusal
+             THEN Fail(e, "first-hour-simulation-refused-as-outside-the-modelled-period", e.exc)
+             ELSE Line("NOTE", e, "valid-simulation-refused", e.exc)) ELSE TRUE
     /\ IF C06 /\ e.outcome = "created"
        THEN /\ IF \E n \in DOMAIN e.recomputed : ~e.recomputed[n].twin_ok
                THEN Fail(e, "twins-not-paired", {e.recomputed[n].slot : n \in {m \in DOMAIN e.recomputed : ~e.recomputed[m].twin_ok}}) ELSE TRUE
